@@ -37,15 +37,17 @@ GEN = {
     "quick": [
         (1, "full", [1, 2, 3], [1, 2], [0, 1, 2], ["all", "none"], ["owned", "view"], ["mod3"], None),
         (1, "full", [3], [2], [0, 2], ["all"], ["ownedoff", "woff", "ownedf", "views2"], ["mod2"], None),
+        (1, "full", [3], [2], [0, 2], ["all"], ["owned", "view"], ["desc", "mod2"], None),
         (2, "mid", [3], [2], [0, 2], ["all"], ["owned", "view"], ["mod2"], None),
         (3, "min", [3], [2], [0], ["all"], ["owned"], ["mod2"], 1200),
         (3, "min", [3], [2], [2], ["all"], ["view"], ["mod2"], 1200),
     ],
     "thorough": [
-        (1, "full", [1, 2, 3, 4], [1, 2, 3], [0, 1, 2], ["all", "none", "w", "names"], ["owned", "view"], ["mod3", "mod2"], None),
+        (1, "full", [1, 2, 3, 4], [1, 2, 3], [0, 1, 2], ["all", "none", "w", "names"], ["owned", "view"], ["mod3", "desc"], None),
+        (1, "full", [3, 4], [2], [0, 2], ["all"], ["owned", "view"], ["mod2"], None),
         (1, "full", [2, 3, 4], [2], [0, 2], ["all"], ["ownedoff", "woff", "ownedf", "views2"], ["mod2", "const"], None),
         (2, "full", [3], [2], [0, 2], ["all"], ["owned", "view"], ["mod2"], None),
-        (2, "mid", [4], [2], [0, 1, 2], ["all"], ["owned", "view", "woff", "ownedf", "views2"], ["mod3"], None),
+        (2, "mid", [4], [2], [0, 1, 2], ["all"], ["owned", "view", "woff", "ownedf", "views2"], ["desc"], None),
         (3, "mid", [3], [2], [0, 2], ["all"], ["owned", "view"], ["mod2"], 12000),
         (4, "min", [4], [2], [0], ["all"], ["owned"], ["mod2"], 6000),
         (4, "min", [4], [2], [2], ["all"], ["view"], ["mod2"], 6000),
@@ -140,11 +142,11 @@ def random_cases(ctx, count, maxn, maxdepth):
             elif op in ("boots", "bootf"):
                 o["a"] = r.randint(1, 6)
             elif op == "wl":
-                o["ls"] = sorted(r.sample(range(6), r.randint(0, 3)))
+                o["ls"] = [r.choice([0, 1, 2, 3, 4, 5, 9]) for _ in range(r.randint(0, 4))]   # any order, repeats, absent labels
             elif op == "chunk":
                 o["a"] = r.randint(1, 5)
             elif op == "map":
-                o["a"] = r.randrange(2)
+                o["a"] = r.randrange(3)
             prog.append(o)
             if op == "boot":
                 nf = o["b"]
